@@ -10,9 +10,18 @@ import (
 	"github.com/ysugimoto/falco/v2/ast"
 )
 
+// maxDepth bounds how deep statements and expressions may nest in a stream.
+// The decoder is recursive and Go cannot recover from an exhausted goroutine
+// stack, so a stream made of nothing but nested frames (3 bytes per level)
+// would otherwise kill the plugin process instead of yielding an error.
+// It is well above what the parser can produce (blocks and expressions
+// of parser.MaxNestingDepth levels each).
+const maxDepth = 500000
+
 type Decoder struct {
-	r   *bufio.Reader
-	fin *Frame
+	r     *bufio.Reader
+	fin   *Frame
+	depth int
 }
 
 func NewDecoder(r io.Reader) *Decoder {
@@ -72,6 +81,19 @@ func (c *Decoder) nextFrame() *Frame {
 		frameType: frameType,
 		size:      size,
 	}
+}
+
+// enter is called for each nested statement or expression, paired with leave.
+func (c *Decoder) enter() error {
+	if c.depth >= maxDepth {
+		return decodeError(fmt.Errorf("frames are nested deeper than %d levels", maxDepth))
+	}
+	c.depth++
+	return nil
+}
+
+func (c *Decoder) leave() {
+	c.depth--
 }
 
 func (c *Decoder) peekFrameIs(t FrameType) bool {
@@ -138,6 +160,11 @@ func (c *Decoder) Decode() ([]ast.Statement, error) {
 }
 
 func (c *Decoder) decode(frame *Frame) (ast.Statement, error) {
+	if err := c.enter(); err != nil {
+		return nil, err
+	}
+	defer c.leave()
+
 	switch frame.Type() {
 	// Declarations
 	case ACL_DECLARATION:
